@@ -181,3 +181,235 @@ Proof.
     unfold Df in *. field. repeat split; auto.
     intro E0. apply HD2. lra.
 Qed.
+(* ---- the model terms at NumR ---- *)
+Lemma Aof_R lam mu psi : Aof NumR lam mu psi = sqrt (rad lam mu psi).
+Proof. unfold Aof, sqr, rad, c4. cbn [add sub mul nsqrt ofQ NumR]. rewrite Q2R_4. reflexivity. Qed.
+
+Lemma Bof_R lam mu psi A rho pn : Bof NumR lam mu psi A rho pn = Bf lam mu psi A rho pn.
+Proof. unfold Bof, Bf, c1, c2. cbn [add sub mul div one ofQ NumR]. rewrite Q2R_2. reflexivity. Qed.
+
+Lemma Eat_R A t1 t : Eat NumR A t1 t = exp (A * (Q2R t1 - Q2R t)).
+Proof. reflexivity. Qed.
+
+Definition dur (e : epoch R) : R := Q2R (et1 e) - Q2R (et0 e).
+Definition eA (e : epoch R) : R := sqrt (rad (elam e) (emu e) (epsi e)).
+Definition eB (e : epoch R) (pn : R) : R := Bf (elam e) (emu e) (epsi e) (eA e) (Q2R (erho e)) pn.
+
+Lemma solve_epoch_R e pn :
+  solve_epoch NumR e pn =
+  mkSol (eA e) (eB e pn) (Pf (elam e) (emu e) (epsi e) (eA e) (eB e pn) (dur e)).
+Proof.
+  unfold solve_epoch. rewrite Aof_R, Bof_R, Eat_R, p0form_R. reflexivity.
+Qed.
+
+Lemma p_at_R e s t :
+  p_at NumR e s t = Pf (elam e) (emu e) (epsi e) (sA s) (sB s) (Q2R (et1 e) - Q2R t).
+Proof. unfold p_at. rewrite Eat_R, p0form_R. reflexivity. Qed.
+
+Lemma log_q_R e s t : log_q NumR e s t = ln (Qf (sA s) (sB s) (Q2R (et1 e) - Q2R t)).
+Proof. unfold log_q. rewrite Eat_R, qform_R. reflexivity. Qed.
+
+(* ---- admissible epochs: positive rates, rho in [0,1], non-negative duration ---- *)
+Definition wf_ep (e : epoch R) : Prop :=
+  0 < elam e /\ 0 < emu e /\ 0 < epsi e /\ 0 <= Q2R (erho e) <= 1 /\ Q2R (et0 e) <= Q2R (et1 e).
+
+Lemma c_range rho pn : 0 <= rho <= 1 -> 0 <= pn <= 1 -> 0 <= (1 - rho) * pn <= 1.
+Proof.
+  intros Hr Hp. split. apply Rmult_le_pos; lra.
+  assert ((1 - rho) * pn <= 1 * 1) by (apply Rmult_le_compat; lra). lra.
+Qed.
+
+Lemma Bf_c lam mu psi A rho pn :
+  Bf lam mu psi A rho pn = ((1 - 2 * ((1 - rho) * pn)) * lam + mu + psi) / A.
+Proof. unfold Bf. f_equal. ring. Qed.
+
+(* everything one needs to know about a solved admissible epoch, tau >= 0 before its end *)
+Lemma epoch_facts e pn tau :
+  wf_ep e -> 0 <= pn <= 1 -> 0 <= tau ->
+  let A := eA e in let B := eB e pn in
+  0 < A /\ A * A = rad (elam e) (emu e) (epsi e) /\ -1 <= B /\ 2 <= Df B (exp (A * tau)) /\
+  0 <= Pf (elam e) (emu e) (epsi e) A B tau <= 1 /\ 0 < Qf A B tau.
+Proof.
+  intros (Hl & Hm & Hp & Hr & Ht) Hpn Htau A B.
+  destruct (A_facts _ _ _ Hl Hm Hp) as (HA & HAA & Hd & Hs).
+  change (sqrt (rad (elam e) (emu e) (epsi e))) with A in HA, HAA, Hd, Hs.
+  pose proof (c_range _ _ Hr Hpn) as Hc.
+  assert (HE : 1 <= exp (A * tau)) by (apply exp_ge1; apply Rmult_le_pos; lra).
+  assert (HBc : B = ((1 - 2 * ((1 - Q2R (erho e)) * pn)) * elam e + emu e + epsi e) / A)
+    by (unfold B, eB; apply Bf_c).
+  assert (HB : -1 <= B).
+  { rewrite HBc. apply B_ge; auto; lra. }
+  assert (HD : 2 <= Df B (exp (A * tau))) by (apply Df_ge2; auto).
+  assert (HP : 0 <= Pf (elam e) (emu e) (epsi e) A B tau <= 1).
+  { rewrite HBc. unfold Pf. apply Pf_range; auto. }
+  repeat split; auto; try apply HP.
+  apply Qf_pos. lra.
+Qed.
+
+Lemma dur_nonneg e : wf_ep e -> 0 <= dur e.
+Proof. intros (_ & _ & _ & _ & Ht). unfold dur. lra. Qed.
+
+(* p stays a probability through the whole backward recursion *)
+Lemma back_range eps : List.Forall wf_ep eps -> 0 <= snd (back NumR eps) <= 1.
+Proof.
+  induction 1 as [|e r He Hr IH]; cbn [back].
+  - unfold c1. cbn [one NumR snd]. lra.
+  - destruct (back NumR r) as [l pn] eqn:Eb. cbn [snd] in *.
+    rewrite solve_epoch_R. cbn [sp].
+    apply (epoch_facts e pn (dur e) He IH (dur_nonneg e He)).
+Qed.
+
+(* the master equations hold inside every epoch of the recursion *)
+Lemma p0_master_l e pn tau :
+  wf_ep e -> 0 <= pn <= 1 -> 0 <= tau ->
+  let A := eA e in let B := eB e pn in
+  let p := fun t => p0form NumR (elam e) (emu e) (epsi e) A B (exp (A * t)) in
+  is_derive p tau (emu e - (elam e + emu e + epsi e) * p tau + elam e * (p tau * p tau))
+  /\ p 0 = (1 - Q2R (erho e)) * pn /\ 0 <= p tau <= 1.
+Proof.
+  intros He Hpn Htau A B p.
+  destruct (epoch_facts e pn tau He Hpn Htau) as (HA & HAA & HB & HD & HP & HQ).
+  fold A B in HA, HAA, HB, HD, HP, HQ.
+  assert (Hp : forall t, p t = Pf (elam e) (emu e) (epsi e) A B t) by (intro; apply p0form_R).
+  destruct He as (Hl & _).
+  split; [|split].
+  - apply is_derive_ext with (f := fun t => Pf (elam e) (emu e) (epsi e) A B t).
+    intros t; symmetry; apply Hp.
+    rewrite Hp. apply Pf_derive; [apply Rgt_not_eq; exact Hl | exact HAA | apply Rgt_not_eq; lra].
+  - rewrite Hp. unfold B, eB. apply Pf_0; apply Rgt_not_eq; [exact Hl | exact HA].
+  - rewrite Hp. exact HP.
+Qed.
+
+Lemma q_master_l e pn tau :
+  wf_ep e -> 0 <= pn <= 1 -> 0 <= tau ->
+  let A := eA e in let B := eB e pn in
+  let p := fun t => p0form NumR (elam e) (emu e) (epsi e) A B (exp (A * t)) in
+  let q := fun t => qform NumR B (exp (A * t)) in
+  is_derive q tau ((- (elam e + emu e + epsi e) + 2 * elam e * p tau) * q tau)
+  /\ q 0 = 1 /\ 0 < q tau.
+Proof.
+  intros He Hpn Htau A B p q.
+  destruct (epoch_facts e pn tau He Hpn Htau) as (HA & HAA & HB & HD & HP & HQ).
+  fold A B in HA, HAA, HB, HD, HP, HQ.
+  assert (Hp : forall t, p t = Pf (elam e) (emu e) (epsi e) A B t) by (intro; apply p0form_R).
+  assert (Hq : forall t, q t = Qf A B t) by (intro; apply qform_R).
+  destruct He as (Hl & _).
+  split; [|split].
+  - apply is_derive_ext with (f := fun t => Qf A B t).
+    intros t; symmetry; apply Hq.
+    rewrite Hp, Hq. apply Qf_derive; apply Rgt_not_eq; [exact Hl | lra].
+  - rewrite Hq. apply Qf_0.
+  - rewrite Hq. exact HQ.
+Qed.
+
+(* boundary wiring inside the recursion: at the END of epoch e, p_e = (1 - rho_e) * p of the
+   next epoch at its start (1 beyond the present) *)
+Lemma boundary_wiring_l e r :
+  List.Forall wf_ep (e :: r) ->
+  match back NumR (e :: r) with
+  | (s :: _, _) => p_at NumR e s (et1 e) = (1 - Q2R (erho e)) * snd (back NumR r)
+                   /\ sp s = p_at NumR e s (et0 e)
+  | _ => False
+  end.
+Proof.
+  intros H. inversion H as [|? ? He Hr]; subst.
+  pose proof (back_range r Hr) as Hpn.
+  cbn [back]. destruct (back NumR r) as [l pn] eqn:Eb. cbn [snd] in *.
+  rewrite p_at_R, p_at_R, solve_epoch_R. cbn [sA sB sp].
+  destruct (epoch_facts e pn 0 He Hpn (Rle_refl 0)) as (HA & _).
+  destruct He as (Hl & _).
+  split.
+  - replace (Q2R (et1 e) - Q2R (et1 e)) with 0 by ring. unfold eB. apply Pf_0; apply Rgt_not_eq; [exact Hl | exact HA].
+  - reflexivity.
+Qed.
+(* ---- refinement: an epoch [t0,t2] cut at t1, identical rates, rho = 0 at the cut ---- *)
+Section Split.
+Variables (l u p : R) (rho t0 t1 t2 : Q).
+Let e  := mkEp l u p rho t0 t2.
+Let e1 := mkEp l u p 0%Q t0 t1.
+Let e2 := mkEp l u p rho t1 t2.
+
+(* (s1, s2) solve the two halves, s the whole: same A, the later half has the B of the whole,
+   p at the start agrees, p and q of the earlier half continue those of the whole *)
+Definition refines (s1 s2 s : sol R) : Prop :=
+  sp s1 = sp s /\ sA s1 = sA s /\ sA s2 = sA s /\ sB s2 = sB s /\
+  (forall tau, 0 <= tau ->
+     Pf l u p (sA s1) (sB s1) tau = Pf l u p (sA s) (sB s) (tau + (Q2R t2 - Q2R t1)) /\
+     Qf (sA s1) (sB s1) tau * Qf (sA s) (sB s) (Q2R t2 - Q2R t1)
+       = Qf (sA s) (sB s) (tau + (Q2R t2 - Q2R t1))).
+
+Lemma split_solve pn :
+  wf_ep e1 -> wf_ep e2 -> 0 <= pn <= 1 ->
+  let s := solve_epoch NumR e pn in
+  let s2 := solve_epoch NumR e2 pn in
+  let s1 := solve_epoch NumR e1 (sp s2) in
+  refines s1 s2 s.
+Proof.
+  intros H1 H2 Hpn s s2 s1. unfold s1, s2, s. rewrite !solve_epoch_R. cbn [sp sA sB].
+  assert (HeA1 : eA e1 = eA e) by reflexivity. assert (HeA2 : eA e2 = eA e) by reflexivity.
+  assert (HeB2 : eB e2 pn = eB e pn) by reflexivity.
+  rewrite HeA1, HeA2, HeB2.
+  change (elam e2) with l. change (emu e2) with u. change (epsi e2) with p.
+  change (elam e1) with l. change (emu e1) with u. change (epsi e1) with p.
+  change (elam e) with l. change (emu e) with u. change (epsi e) with p.
+  set (A := eA e). set (B := eB e pn).
+  assert (Hd1 : 0 <= dur e1) by (apply dur_nonneg; exact H1).
+  assert (Hd2 : 0 <= dur e2) by (apply dur_nonneg; exact H2).
+  assert (Hdur : dur e = dur e1 + dur e2) by (unfold dur; cbn [et0 et1 e e1 e2]; ring).
+  assert (Hdd : dur e2 = Q2R t2 - Q2R t1) by reflexivity.
+  assert (Hwf : wf_ep e).
+  { destruct H1 as (? & ? & ? & ? & ?), H2 as (? & ? & ? & ? & ?). unfold wf_ep. cbn [elam emu epsi erho et0 et1 e e1 e2] in *.
+    repeat split; auto; lra. }
+  assert (HB1 : eB e1 (Pf l u p A B (dur e2)) = Bf l u p A 0 (Pf l u p A B (dur e2))).
+  { unfold eB. cbn [elam emu epsi erho e1]. rewrite Q2R_0. reflexivity. }
+  rewrite HB1.
+  assert (Hflow : forall tau, 0 <= tau ->
+            Pf l u p A (Bf l u p A 0 (Pf l u p A B (dur e2))) tau = Pf l u p A B (tau + dur e2) /\
+            Qf A (Bf l u p A 0 (Pf l u p A B (dur e2))) tau * Qf A B (dur e2) = Qf A B (tau + dur e2)).
+  { intros tau Htau.
+    destruct (epoch_facts e pn (dur e2) Hwf Hpn Hd2) as (HA & _ & _ & HD1 & _).
+    assert (Htd : 0 <= tau + dur e2) by lra.
+    destruct (epoch_facts e pn (tau + dur e2) Hwf Hpn Htd) as (_ & _ & _ & HD2 & _).
+    fold A B in HA, HD1, HD2.
+    destruct (flow l u p A B tau (dur e2)) as (F1 & F2 & _).
+    - apply Rgt_not_eq. apply Hwf.
+    - apply Rgt_not_eq. exact HA.
+    - apply Rgt_not_eq. lra.
+    - apply Rgt_not_eq. lra.
+    - split; assumption. }
+  unfold refines. cbn [sp sA sB]. rewrite <- Hdd.
+  repeat split; auto.
+  - rewrite Hdur. apply (Hflow (dur e1) Hd1).
+  - apply (Hflow tau H).
+  - apply (Hflow tau H).
+Qed.
+
+(* the same inside a skyline with any number of epochs before and after the cut epoch *)
+Lemma back_split pre r :
+  List.Forall wf_ep (pre ++ e1 :: e2 :: r) ->
+  exists lpre s1 s2 s lr,
+    fst (back NumR (pre ++ e1 :: e2 :: r)) = lpre ++ s1 :: s2 :: lr /\
+    fst (back NumR (pre ++ e :: r)) = lpre ++ s :: lr /\
+    length lpre = length pre /\
+    snd (back NumR (pre ++ e1 :: e2 :: r)) = snd (back NumR (pre ++ e :: r)) /\
+    refines s1 s2 s.
+Proof.
+  induction pre as [|a pre IH]; intros Hwf.
+  - cbn [app] in *. inversion Hwf as [|? ? Hw1 Hw']; subst. inversion Hw' as [|? ? Hw2 Hwr]; subst.
+    pose proof (back_range r Hwr) as Hpn.
+    cbn [back]. destruct (back NumR r) as [lr pn] eqn:Eb. cbn [snd fst] in *.
+    exists [], (solve_epoch NumR e1 (sp (solve_epoch NumR e2 pn))), (solve_epoch NumR e2 pn),
+      (solve_epoch NumR e pn), lr.
+    pose proof (split_solve pn Hw1 Hw2 Hpn) as Hs. cbv zeta in Hs.
+    split; [reflexivity|]. split; [reflexivity|]. split; [reflexivity|]. split; [apply Hs | exact Hs].
+  - cbn [app] in *. inversion Hwf as [|? ? Hwa Hwp]; subst.
+    destruct (IH Hwp) as (lpre & s1 & s2 & s & lr & E1 & E2 & Hlen & Hp & Hs).
+    cbn [back].
+    destruct (back NumR (pre ++ e1 :: e2 :: r)) as [la pa] eqn:Ea.
+    destruct (back NumR (pre ++ e :: r)) as [lb pb] eqn:Ebb.
+    cbn [fst snd] in *. subst pb la lb.
+    exists (solve_epoch NumR a pa :: lpre), s1, s2, s, lr.
+    cbn [fst snd app length].
+    split; [reflexivity|]. split; [reflexivity|]. split; [congruence|]. split; [reflexivity | exact Hs].
+Qed.
+End Split.
